@@ -320,7 +320,10 @@ PositionChecks(k, e, s, t, g) ==
         { Chk("C10", "C10.step.perp_open_starts_healthy", TRUE,
               \A x \in Mtps(t) : (t.perp.mtps[x].id = Resp(e, "id", "") /\ t.perp.mtps[x].owner = e.sender) =>
                                    /\ t.perp.mtps[x].health \succ t.perp.safetyFactor
-                                   /\ (t.perp.mtps[x].probeHealth \prec Zero \/ t.perp.mtps[x].probeHealth \succ t.perp.safetyFactor), Resp(e, "id", "")) }
+                                   \* the real health function on the final state of the transaction, position as stored (unpaid interest is
+                                   \* a liability in it; SETTLING that interest - paid from custody at the oracle price while custody is valued
+                                   \* with slippage - can lower the figure, which is "interest that had already accrued", not the open's doing)
+                                   /\ (t.perp.mtps[x].plainHealth \prec Zero \/ t.perp.mtps[x].plainHealth \succ t.perp.safetyFactor), Resp(e, "id", "")) }
       ELSE {})
      \cup
      \* C08: a full close / liquidation removes the position and leaves nothing committed at its address
